@@ -398,3 +398,52 @@ let race_case ?(self = false) (tree : string) (obs : string) : string * string *
       else Printf.sprintf "BAD:race got %s want %s" (cut got) (cut (if !i < Array.length b then b.(!i) else "end"))
     end in
   (pred, v, List.length its >= 1)
+
+(* urace cases: one live unlimited part, nobody calls Start; while the window is open the total is
+   unknown: every Left negative, every Next a token, the finite tokens in front of the window exactly
+   once, no finish callback *)
+let urace_case (tree : string) (g : int) (per : int) (obs : string) : string * string * bool =
+  leaf_hyp_ok := true;
+  let c = cfg_of (parse_tree tree) in
+  let fl = flatten_cfg c in
+  let (its, _) = items_from z0 fl in
+  let rec front acc = function
+    | IT t :: r -> front (t :: acc) r
+    | rest -> (List.rev acc, rest) in
+  let (toks, rest) = front [] its in
+  let live = (match rest with IW (_, _) :: _ -> true | _ -> false) in
+  let spec =
+    if not live then "unsupported-no-window"
+    else begin
+      let ts = List.sort ZT.compare (List.map zt_of_z toks) in
+      let base = (match ts with t :: _ -> t | [] -> ZT.zero) in
+      let nf = List.length ts in
+      Printf.sprintf "tok=%s nu=%d lbad=0 nok=0 uok=1 mono=1 cb=0"
+        (if ts = [] then "-" else String.concat "," (List.map (fun t -> ZT.to_string (ZT.sub t base)) ts))
+        (g * per - nf)
+    end in
+  let v =
+    if not !leaf_hyp_ok then "BAD:leaf-offsets-not-monotone-or-beyond-duration"
+    else if obs = spec then "ok"
+    else begin
+      let b = Array.of_list (split_blank spec) in
+      let first_diff l =
+        let rec go k = function
+          | [] -> None
+          | x :: r -> if k < Array.length b && x <> b.(k) then Some (List.hd (String.split_on_char '=' x)) else go (k + 1) r in
+        go 0 l in
+      let cut s = if String.length s > 80 then String.sub s 0 80 ^ "..." else s in
+      match split_blank obs with
+      | "var" :: _ ->
+          let dev = (match Str.bounded_split (Str.regexp_string " VERSUS ") obs 2 with
+            | [fst; snd] ->
+                (match first_diff (split_blank snd) with
+                 | Some f -> f
+                 | None -> (match first_diff (List.tl (split_blank fst)) with Some f -> f | None -> "?"))
+            | _ -> "?") in
+          Printf.sprintf "BAD:iterations-differ-in-%s %s" dev (cut obs)
+      | l -> (match first_diff l with
+              | Some f -> Printf.sprintf "BAD:open-window-%s %s" f (cut obs)
+              | None -> "BAD:urace " ^ cut obs)
+    end in
+  (spec, v, g * per >= 2)
